@@ -18,10 +18,12 @@ import (
 )
 
 const (
-	RepoDir  = "/repo"
-	VerifDir = "/verif"
-	GoBin    = "go1.26.8"
+	RepoDir = "/repo"
+	GoBin   = "go1.26.8"
 )
+
+// VerifDir is the /verif tree to build from (set by the driver to its working directory).
+var VerifDir = "/verif"
 
 // Result describes a finished build.
 type Result struct {
